@@ -311,3 +311,55 @@ pub fn events_reduced() -> Alphabet {
     evs.push(sell(off(b, 30), "X", "5", "30", "1"));
     Alphabet::new("events-reduced", evs, Rules::STRICT)
 }
+
+/// `events-same-day` (C06): CAPRETURN / ACCUMULATION / SPLIT lines dated on days that also have purchases and sales
+/// of the same security, so that the order of a day's lines of different kinds is exercised.
+pub fn events_same_day() -> Alphabet {
+    let b = base();
+    let mut evs = vec![];
+    evs.push(buy(off(b, -40), "X", "10", "10", "1"));
+    for (i, o) in [0i64, 5].iter().enumerate() {
+        let d = off(b, *o);
+        evs.push(buy(d, "X", "10", &format!("{}", 14 + i), "1"));
+        evs.push(sell(d, "X", "4", &format!("{}", 20 + i), "0.5"));
+        evs.push(sell(d, "X", "10", &format!("{}", 23 + i), "0"));
+        evs.push(capret(d, "X", "10", "6", "1"));
+        evs.push(accum(d, "X", "10", "7", "0"));
+    }
+    evs.push(capret(off(b, 5), "X", "20", "9", "0"));
+    // a return larger than the expenditure then left, and an accumulation of the same amount on the same date
+    evs.push(capret(off(b, 0), "X", "10", "150", "0"));
+    evs.push(accum(off(b, 0), "X", "10", "150", "0"));
+    evs.push(split(off(b, 0), "X", "2"));
+    evs.push(split(off(b, 5), "X", "2"));
+    evs.push(sell(off(b, 40), "X", "5", "30", "1"));
+    // C06 is purely metamorphic (no reference model), so the same-day convention of DESIGN §3 is not needed here
+    let mut rules = Rules::STRICT;
+    rules.no_same_day_convention = false;
+    rules.one_adj = false;
+    Alphabet::new("events-same-day", evs, rules)
+}
+
+/// `events-two-adj` (C11): several CAPRETURN / ACCUMULATION lines of one security on one date — returns that fit
+/// the expenditure one by one but not together, and returns that fit only thanks to a same-date accumulation.
+pub fn events_two_adj() -> Alphabet {
+    let b = base();
+    let mut evs = vec![];
+    evs.push(buy(off(b, -40), "X", "10", "10", "1"));
+    evs.push(buy(off(b, -20), "X", "10", "12", "1"));
+    evs.push(sell(off(b, 0), "X", "4", "20", "0.5"));
+    evs.push(sell(off(b, 0), "X", "10", "21", "0"));
+    evs.push(buy(off(b, 5), "X", "10", "13", "1"));
+    for o in [3i64, 7] {
+        let d = off(b, o);
+        evs.push(capret(d, "X", "10", "60", "0"));
+        evs.push(capret(d, "X", "10", "70", "1"));
+        evs.push(capret(d, "X", "10", "45", "0"));
+        evs.push(accum(d, "X", "10", "50", "0"));
+        evs.push(accum(d, "X", "10", "7", "0"));
+    }
+    evs.push(sell(off(b, 30), "X", "5", "30", "1"));
+    let mut rules = Rules::STRICT;
+    rules.one_adj = false;
+    Alphabet::new("events-two-adj", evs, rules)
+}
